@@ -195,6 +195,12 @@ def noise_op(K, rng, slot, vid_base, placed=()):
 def valid_mutation(K, rng, slot=0):
     """A valid change that alters the serialised content."""
     sl = {"slot": slot} if slot else {}
+    if K["vars"] and rng.random() < 0.1:
+        # a look-up in between (a consumer lists the variants of one architecture): looking is not changing
+        o = {"op": "get_variants", "at": "top" if rng.random() < 0.6 else pick(rng, K["vars"])["n"],
+             "arch": pick(rng, [None, "src"] + pools.ARCHES), "types": None, "recursive": rng.random() < 0.6}
+        o.update(sl)
+        return o
     r = rng.random()
     swappable = [v for v in K["vars"] if not any(c["parent"] == v["n"] for c in K["vars"])]
     if r < 0.15 and swappable:
